@@ -1011,6 +1011,9 @@ func (cfg *config) updateRepeat() {
 	if cfg.repeatFrom == nil {
 		return
 	}
+	// Forget the previous repetition point: the storyline may have
+	// changed (e.g. by an edit) so that no act matches any more.
+	cfg.repeatActNum = 0
 	for i, part := range cfg.storyLine {
 		// Find the repetition point.
 		if cfg.repeatFrom.MatchString(part) {
